@@ -259,17 +259,23 @@ func vstub_os_File_WriteTo(f *os.File, w io.Writer) (int64, error) {
 	}
 }
 
-// the registered "library": doubles every 'y', drops every 'x', fails on a 'z' (after having read everything)
+// the registered "library": doubles every 'y', drops every 'x', fails on a 'z' (after having read everything). Like
+// the real minifiers (parse.NewInput) it works in place on the reader's own buffer when the reader exposes one
+// (Bytes()), scribbling over what it has consumed: a caller that needs the original afterwards must not hand it over.
 func vfStub(_ *min.M, w io.Writer, r io.Reader, _ map[string]string) error {
-	b, err := io.ReadAll(r)
-	if err != nil {
+	var b []byte
+	var err error
+	if bb, ok := r.(interface{ Bytes() []byte }); ok {
+		b = bb.Bytes()
+	} else if b, err = io.ReadAll(r); err != nil {
 		return err
 	}
 	out := make([]byte, 0, 2*len(b)+1)
-	for _, c := range b {
+	for i, c := range b {
 		if c == 'z' {
 			return vErrRead
 		}
+		b[i] = '#'
 		if c == 'x' {
 			continue
 		}
@@ -334,14 +340,15 @@ func vfEq(a, b []byte) bool {
 }
 
 // scenarios: 0 in place (a.js -> a.js), 1 separate output, 2 in place through a symlink (l.js -> a.js, output a.js),
-// 3 bundle of two files onto the first of them, 4 bundle to a separate file, 5 sync copy of an unknown type
+// 3 bundle of two files onto the first of them, 4 bundle to a separate file, 5 sync copy of an unknown type,
+// 6 bundle of two files onto the second of them
 func vfScenario(n int) (t Task, inputs map[string][]byte, wantDst string, want []byte, ok bool) {
 	a, b := vfContent(n, "fa"), vfContent(n, "fb")
 	vfPut("a.js", a)
 	vfPut("b.js", b)
 	vfPut("other.txt", []byte("keep"))
 	inputs = map[string][]byte{"a.js": a, "b.js": b, "other.txt": []byte("keep")}
-	switch vChoice("scenario", 6) {
+	switch vChoice("scenario", 7) {
 	case 0:
 		t = Task{".", []string{"a.js"}, "a.js", false}
 		want, ok = vfRefStub(a)
@@ -363,6 +370,10 @@ func vfScenario(n int) (t Task, inputs map[string][]byte, wantDst string, want [
 		t = Task{".", []string{"a.js", "b.js"}, "bundle.js", false}
 		want, ok = vfRefStub(append(append(append([]byte(nil), a...), ";\n"...), b...))
 		wantDst = "bundle.js"
+	case 6:
+		t = Task{".", []string{"a.js", "b.js"}, "b.js", false}
+		want, ok = vfRefStub(append(append(append([]byte(nil), a...), ";\n"...), b...))
+		wantDst = "b.js"
 	default:
 		t = Task{".", []string{"other.txt"}, "out/other.txt", true}
 		want, ok = []byte("keep"), true
